@@ -15,6 +15,11 @@ def _get(d, *keys):
     return d
 
 
+def _item(entry, i):
+    """i-th element of a [name, table] entry, None when the data file has no such element (partial data)"""
+    return entry[i] if isinstance(entry, list) and len(entry) > i else None
+
+
 def chip_desc(data, model_ec, node, chip_pos):
     chip = data.get(model_ec.lower())
     typ = _get(chip, 'model_ec', 'type')
@@ -28,8 +33,8 @@ def signature_doc(data, sig12):
     f = split_signature(sig12)
     chip = data.get(f['model_ec'].lower())
     sig = _get(chip, 'signatures', f['sig_id'].lower())
-    name = sig[0] if sig is not None else 'id:' + f['sig_id'].upper()
-    desc = _get({'x': sig[1]} if sig is not None else None, 'x', str(f['bit']))
+    name = _item(sig, 0) if _item(sig, 0) is not None else 'id:' + f['sig_id'].upper()
+    desc = _get(_item(sig, 1), str(f['bit']))
     attn = _get(chip, 'attn_types', str(f['attn']))
     return {'Chip Desc': chip_desc(data, f['model_ec'], f['node'], f['chip_pos']),
             'Signature': '%s(%d)[%s] %s' % (name, f['inst'], f['bit'], desc if desc is not None else ''),
@@ -39,6 +44,6 @@ def signature_doc(data, sig12):
 def reg_info(data, model_ec, reg_id, inst):
     chip = data.get(model_ec.lower())
     reg = _get(chip, 'registers', reg_id.lower())
-    name = reg[0] if reg is not None else 'id:%s inst:%s' % (reg_id.upper(), inst)
-    addr = _get({'x': reg[1]} if reg is not None else None, 'x', str(inst))
+    name = _item(reg, 0) if _item(reg, 0) is not None else 'id:%s inst:%s' % (reg_id.upper(), inst)
+    addr = _get(_item(reg, 1), str(inst))
     return name, int(addr, 16) if addr is not None else 0
